@@ -606,8 +606,12 @@ pub fn generate(seed: u64, tier: Tier, p: &Profile) -> Scenario {
     }
     if pm(&mut g.r, p.plutus) && !g.plutus_ids.is_empty() {
         let n = 1 + g.r.below(3);
+        let mut last_plutus_wit: Option<Wit> = None;
         for _ in 0..n {
-            let s = *g.r.pick(&g.plutus_ids.clone());
+            let s = match &last_plutus_wit {
+                Some(prev) if g.r.chance(1, 3) => prev.script,
+                _ => *g.r.pick(&g.plutus_ids.clone()),
+            };
             let coin = g.min_ada(100) + g.amount() % 50_000_000;
             let d = g.r.below(g.w.datums.len() as u64) as u16;
             let lang = g.w.scripts[s as usize].lang().unwrap();
@@ -627,7 +631,16 @@ pub fn generate(seed: u64, tier: Tier, p: &Profile) -> Scenario {
                 Some(false) => DatumUse::None,
                 Some(true) => DatumUse::Ref(u),
             };
-            let wit = g.wit_plutus(s, du);
+            let mut wit = g.wit_plutus(s, du);
+            // two UTxOs of one validator are often spent with the very same redeemer (same payload, same budget)
+            if let Some(prev) = &last_plutus_wit {
+                if prev.script == s && g.r.chance(1, 2) {
+                    wit.red = prev.red;
+                    wit.mem = prev.mem;
+                    wit.steps = prev.steps;
+                }
+            }
+            last_plutus_wit = Some(wit.clone());
             // sometimes the wallet first adds one of its own key UTxOs by mistake as an input of
             // this script and then corrects itself (the second call replaces the first)
             if pm(&mut g.r, p.corrections) {
@@ -905,10 +918,15 @@ pub fn generate(seed: u64, tier: Tier, p: &Profile) -> Scenario {
                     let mut rev = remove.clone();
                     rev.reverse();
                     plan.need += deposit as u128;
-                    plan.pre.push(Op::Propose(ProposalSpec { deposit, reward: reward.clone(), action: ActionSpec::UpdateCommittee { prev: *prev, remove: rev, add: add.clone(), q: *q } }, None));
+                    plan.pre.push(Op::Propose(ProposalSpec { deposit, reward: reward.clone(), action: ActionSpec::UpdateCommittee { prev: *prev, remove: rev, add: add.clone(), q: *q }, mirror: 0 }, None));
                 }
             }
-            plan.pre.push(Op::Propose(ProposalSpec { deposit, reward, action }, wit));
+            if wit.is_none() && g.r.chance(1, 5) {
+                // the same proposal once more, its document published under a mirror url (another proposal on the wire)
+                plan.need += deposit as u128;
+                plan.pre.push(Op::Propose(ProposalSpec { deposit, reward: reward.clone(), action: action.clone(), mirror: 1 + g.r.below(2) as u8 }, None));
+            }
+            plan.pre.push(Op::Propose(ProposalSpec { deposit, reward, action, mirror: 0 }, wit));
         }
     }
     // ---- misc
